@@ -117,6 +117,8 @@ struct RunFlags {
   int threads_created = 0;
   int threads_joined = 0;
   unsigned hardware_concurrency = 3; // what std::thread::hardware_concurrency() reports in this run
+  bool first_spawn_fails = false; // the system cannot create a thread (EAGAIN: RLIMIT_NPROC, no memory for a stack)
+  bool spawn_failed = false;
 };
 extern RunFlags g_flags;
 
@@ -126,6 +128,11 @@ public:
   template <typename F, typename... A, typename = std::enable_if_t<!std::is_same_v<std::decay_t<F>, Thread>>>
   explicit Thread(F&& f, A&&... a) {
     // std::thread semantics: decay-copy the callable and its arguments, invoke them on the new thread
+    if (g_flags.first_spawn_fails && g_flags.threads_created == 0 && !g_flags.spawn_failed) {
+      g_flags.spawn_failed = true;
+      VS_FAULT("thread_creation_fails");
+      throw std::system_error(std::make_error_code(std::errc::resource_unavailable_try_again));
+    }
     auto pack = std::make_shared<std::tuple<std::decay_t<F>, std::decay_t<A>...>>(std::forward<F>(f), std::forward<A>(a)...);
     g_flags.threads_created++;
     id = vpar::spawn([pack]() { std::apply([](auto&& fn, auto&&... args) { std::invoke(std::move(fn), std::move(args)...); }, std::move(*pack)); });
@@ -211,6 +218,7 @@ struct RunCfg {
   std::vector<int> true_extra; // additional true positions for ranges longer than 32 (thorough tier)
   int progress; // 0 nullptr, 1 recorder, 2 default argument
   int cb_yields;
+  bool first_spawn_fails = false;
   int offset_kind; // 0: 0, 1: 1, 2: 100, 3: near the type's maximum
   int slack; // distance of end_value from the type's maximum (offset_kind 3)
 };
@@ -265,7 +273,7 @@ void run_typed(const RunCfg& c, const char* type_name) {
 
   std::function<void(IntT, IntT, IntT, uint64_t)> pf = nullptr;
   if (progress == 1) pf = progress_rec;
-  bool threw_logic = false;
+  bool threw_logic = false, threw_system = false;
   string what;
   IntT ret = 0;
   std::unordered_set<IntT> ret_set;
@@ -284,11 +292,22 @@ void run_typed(const RunCfg& c, const char* type_name) {
   } catch (const std::logic_error& e) {
     threw_logic = true;
     what = e.what();
+  } catch (const std::system_error& e) {
+    threw_system = true;
+    what = e.what();
   } catch (const AbortRun&) {
     vpar::drain(-1);
     throw;
   }
   set_context("");
+  if (threw_system) {
+    // the caller was told: nothing is claimed about the values, but nothing may be left running
+    if (!vshim::g_flags.spawn_failed) fail("unexpected_system_error", cfg_key, "the call threw system_error('" + what + "') although every thread could be created");
+    for (int id = 1; id < vpar::task_count(); id++)
+      if (!vpar::is_finished(id)) fail("threads/running_after_return", cfg_key, "the call threw because a thread could not be created and left worker thread " + std::to_string(id) + " running");
+    VS_PROBE("thread_creation_failure_reported");
+    return;
+  }
 
   // ---- oracles over the recorded history
   // Configurations whose end_value lies within num_threads*block_size of the type's maximum make the
@@ -323,7 +342,7 @@ void run_typed(const RunCfg& c, const char* type_name) {
   for (int id = 1; id < vpar::task_count(); id++)
     if (!vpar::is_finished(id)) fail("threads/running_after_return", cfg_key, "the call returned while worker thread " + std::to_string(id) + " was still running");
   if (vshim::g_flags.threads_joined != vshim::g_flags.threads_created) fail("threads/not_joined", cfg_key, "created " + std::to_string(vshim::g_flags.threads_created) + " threads, joined " + std::to_string(vshim::g_flags.threads_joined));
-  if (vshim::g_flags.threads_created != c.eff_threads) fail("threads/wrong_count", cfg_key, "asked for " + std::to_string(c.eff_threads) + " threads, " + std::to_string(vshim::g_flags.threads_created) + " were created");
+  if (vshim::g_flags.threads_created != c.eff_threads && !vshim::g_flags.spawn_failed) fail("threads/wrong_count", cfg_key, "asked for " + std::to_string(c.eff_threads) + " threads, " + std::to_string(vshim::g_flags.threads_created) + " were created");
 
   std::map<uint64_t, int> seen;
   bool any_true_returned = false;
@@ -441,8 +460,48 @@ static void run() {
   }
   c.progress = choose(3, "progress");
   c.cb_yields = choose(3, "cb_yields");
-  if (c.func == 2 && c.threads == 0) {
-    // _multi sizes its per-thread result vector from its own hardware_concurrency() call: fine
+  // one run in sixteen: the first worker thread cannot be created (later ones are not failed: with the
+  // repository's code an exception out of the spawn loop destroys the joinable threads already started, which is
+  // std::terminate - a limitation outside what C16 states, see DESIGN.md)
+  c.first_spawn_fails = c.block_divides && choose(16, "spawn.fails") == 15;
+  // one run in six is not the first call of this instantiation in the process: an earlier call (all callbacks
+  // true, two workers) has left whatever the implementation keeps between calls
+  bool prelude = choose(6, "prelude") == 5;
+
+  if (prelude) {
+    RunCfg p = c;
+    p.len = 4;
+    p.block = c.func == 0 ? 1 : (int)pick({1, 2}, "prelude.block");
+    p.block_divides = true;
+    p.threads = p.eff_threads = 2;
+    p.true_mask = 0xF;
+    p.true_extra.clear();
+    p.progress = 0;
+    p.cb_yields = 1;
+    p.first_spawn_fails = false;
+    if (p.offset_kind == 3) p.offset_kind = 2;
+    vpar::Config pc;
+    pc.strategy = vpar::ROUND_ROBIN;
+    pc.quantum = 1;
+    pc.step_budget = 30000;
+    vshim::g_flags = vshim::RunFlags();
+    vpar::reset(pc);
+    ev("prelude", c.func, type);
+    try {
+      switch (type) {
+        case 0: run_typed<uint8_t>(p, "uint8_t"); break;
+        case 1: run_typed<uint16_t>(p, "uint16_t"); break;
+        case 2: run_typed<uint32_t>(p, "uint32_t"); break;
+        case 3: run_typed<uint64_t>(p, "uint64_t"); break;
+        case 4: run_typed<int32_t>(p, "int32_t"); break;
+        default: run_typed<int64_t>(p, "int64_t"); break;
+      }
+    } catch (...) {
+      vpar::drain(-1);
+      throw;
+    }
+    vpar::drain(-1);
+    VS_PROBE("second_call_in_process");
   }
 
   vpar::Config sc;
@@ -454,6 +513,7 @@ static void run() {
   sc.step_budget = large ? 300000 : 30000;
   vshim::g_flags = vshim::RunFlags();
   vshim::g_flags.hardware_concurrency = hw;
+  vshim::g_flags.first_spawn_fails = c.first_spawn_fails;
   vpar::reset(sc);
   if (sc.strategy != vpar::FIRST && c.eff_threads > 1 && c.len > 0) mark_nontrivial();
   static const char* FUNCS[] = {"parallel_range", "parallel_range_blocks", "parallel_range_blocks_multi"};
@@ -515,7 +575,7 @@ int main(int argc, char** argv) {
   e.components = {{"phosg Tools.hh: parallel_range, parallel_range_blocks, parallel_range_blocks_multi, their thread functions and parallel_range_default_progress_fn", "real, unmodified header from the repository working tree (macro retargeting in the harness TU)"},
       {"std::thread, std::atomic, usleep, now()", "stub: scheduler-controlled shims (engines/sim_par.cc, vsim/vpar.cc)"},
       {"callback and progress recorder", "harness"}};
-  e.expected_probes = {"two_workers_in_callback", "progress_timer_fired_while_workers_busy", "early_exit_skipped_values", "two_callbacks_returned_true", "end_value_near_type_max", "values_split_between_workers", "progress_fn_called", "negative_start_value"};
-  e.expected_faults = {};
+  e.expected_probes = {"two_workers_in_callback", "progress_timer_fired_while_workers_busy", "early_exit_skipped_values", "two_callbacks_returned_true", "end_value_near_type_max", "values_split_between_workers", "progress_fn_called", "negative_start_value", "second_call_in_process", "thread_creation_failure_reported"};
+  e.expected_faults = {"thread_creation_fails"};
   return driver_main(argc, argv, e);
 }
